@@ -4,6 +4,7 @@ import (
 	"context"
 	"errors"
 	"fmt"
+	"math"
 	"strings"
 
 	"github.com/jhump/grpctunnel/tunnelpb"
@@ -148,6 +149,30 @@ func c08Scenarios(tier string) []*Scenario {
 		}
 	}
 	gen(nil)
+	// the largest identifier: after it every identifier is "not greater than all seen"
+	big := int64(math.MaxInt64)
+	alphaBig := append([]c2sFrame{}, alpha...)
+	for _, id := range []int64{big, big - 1} {
+		id := id
+		alphaBig = append(alphaBig,
+			c2sFrame{fmt.Sprintf("N%d", id), func() *tunnelpb.ClientToServer { return fNew(id, "/verif.T/Bidi", 1, 65536, "smax") }},
+			c2sFrame{fmt.Sprintf("H%d", id), func() *tunnelpb.ClientToServer { return fHalf(id) }},
+			c2sFrame{fmt.Sprintf("C%d", id), func() *tunnelpb.ClientToServer { return fCancel(id) }},
+		)
+	}
+	nmax := alphaBig[len(alpha)]
+	for i := range alphaBig {
+		scs = append(scs, c09ServerScenario("C08", "c08/raw/max/"+nmax.name+","+alphaBig[i].name, []c2sFrame{nmax, alphaBig[i]}, true, Options{Level: "io", Bound: 0}))
+		for j := range alphaBig {
+			fr := []c2sFrame{nmax, alphaBig[i], alphaBig[j]}
+			scs = append(scs, c09ServerScenario("C08", "c08/raw/max/"+nmax.name+","+alphaBig[i].name+","+alphaBig[j].name, fr, true, Options{Level: "io", Bound: 0}))
+			if i < 4 {
+				// ... and reached after an ordinary stream
+				fr2 := []c2sFrame{alpha[4*2], nmax, alphaBig[i], alphaBig[j]}
+				scs = append(scs, c09ServerScenario("C08", "c08/raw/max/N1,"+nmax.name+","+alphaBig[i].name+","+alphaBig[j].name, fr2, true, Options{Level: "io", Bound: 0}))
+			}
+		}
+	}
 	for _, cfg := range []TunCfg{{}, {Reverse: true}} {
 		for _, p := range progs {
 			for _, withClose := range []bool{false, true} {
@@ -221,7 +246,7 @@ func c08Scenarios(tier string) []*Scenario {
 
 func init() {
 	register(&PropDef{ID: "C08", Level: "model_checking",
-		Rule:      "(concurrent creation) 2-3 goroutines starting 1-2 RPCs each (mixed shapes, one failing in its credentials, some with per-RPC credentials that yield inside GetRequestMetadata, one whose context is already cancelled when it starts, optionally racing a channel close), forward and reverse, with every lock/atomic/channel operation of stream creation, id allocation and the thread-safe send wrappers as a scheduling point, all schedules with <= 1 deviation (<= 2 for the two-goroutine programs) at quick, one more at thorough; oracle: ids strictly increasing on the wire, each id starts with new_stream (protocol monitor), each RPC gets at most one invocation of exactly its handler and exactly one when it completes; (raw histories) every sequence of length <= 3 (quick) / 4 (thorough) over {new_stream, request, half_close, cancel} x ids {-1,0,1,2,5} against the reference id rules (id not greater than all seen => tunnel ends with an error; frames for finished ids ignored)",
+		Rule:      "(concurrent creation) 2-3 goroutines starting 1-2 RPCs each (mixed shapes, one failing in its credentials, some with per-RPC credentials that yield inside GetRequestMetadata, one whose context is already cancelled when it starts, optionally racing a channel close), forward and reverse, with every lock/atomic/channel operation of stream creation, id allocation and the thread-safe send wrappers as a scheduling point, all schedules with <= 1 deviation (<= 2 for the two-goroutine programs) at quick, one more at thorough; oracle: ids strictly increasing on the wire, each id starts with new_stream (protocol monitor), each RPC gets at most one invocation of exactly its handler and exactly one when it completes; (raw histories) every sequence of length <= 3 (quick) / 4 (thorough) over {new_stream, request, half_close, cancel} x ids {-1,0,1,2,5} against the reference id rules, plus every history of length <= 2 over that alphabet extended by ids MaxInt64 and MaxInt64-1 that follows new_stream(MaxInt64) (id not greater than all seen => tunnel ends with an error; frames for finished ids ignored)",
 		Globals:   []func(*Scenario, *World, *Exec) []Violation{ProtoMonitor},
 		Scenarios: c08Scenarios})
 }
